@@ -62,9 +62,13 @@ def chain_walk(run, F, PV, C):
     fn = P.method(C, "validate_and_get_values")
     g = A.cfg(fn, C)
     root_param = fn.params[1]
-    tl = [n for n in A.own_nodes(fn) if isinstance(n, ast.For) and norm(n.iter) == "self._targets"]
-    run.require(len(tl) == 1 and isinstance(tl[0].target, ast.Name), "validate_and_get_values: the loop over self._targets vanished (idiom not understood)")
+    tl = [n for n in A.own_nodes(fn) if isinstance(n, ast.For) and any(isinstance(x, ast.Call) and call_name(x) == "is_valid" for x in ast.walk(n))
+          and not any(isinstance(p_, ast.For) and p_ is not n and any(n is y for y in ast.walk(p_)) for p_ in A.own_nodes(fn))]
+    run.require(len(tl) == 1 and isinstance(tl[0].target, ast.Name), "validate_and_get_values: the per-target loop vanished (idiom not understood)")
     tloop = tl[0]
+    run.check("R1", norm(tloop.iter) == "self._targets", "verdicts are computed for the certificate's targets", key="validate_and_get_values|targets-source", where=fn.loc(tloop),
+              message=f"validate_and_get_values iterates `{norm(tloop.iter)}` instead of self._targets: the set of verdicts is no longer the certificate's declared targets "
+                      "(a saved and re-loaded certificate, whose targets are written as loaded, can answer for other elements)")
     TGT = tloop.target.id
     iv = find_calls(A, fn, "is_valid")
     run.require(len(iv) >= 1, "validate_and_get_values: no is_valid call (anchor vanished)")
